@@ -160,22 +160,28 @@ def gen_dataset(rng, opts=None):
     rig_ids = []
     if present('rigs') and sensor_ids:
         rigs = {}
-        nr = rng.randint(1, 3)
+        nr = rng.randint(2, 4) if o.nested_rigs else rng.randint(1, 3)
         free = list(sensor_ids)
         rng.shuffle(free)
         for r in range(nr):
             rid = ident(rng, 'rig', r, o)
-            if rid in sensors or rid in rigs or not free:
+            nest = o.nested_rigs and rig_ids and rng.random() < 0.8
+            if rid in sensors or rid in rigs or not (free or nest):
                 continue
             members = {}
-            for _ in range(rng.randint(1, 3)):
+            for _ in range(rng.randint(0 if nest else 1, 3)):
                 if free:
                     members[free.pop()] = gen_pose(rng, partial=False)
-            if o.nested_rigs and rig_ids and rng.random() < 0.5:
+            if nest:
                 members[rig_ids[-1]] = gen_pose(rng, partial=False)
             if members:
                 rigs[rid] = members
                 rig_ids.append(rid)
+        if o.nested_rigs and len(rigs) > 1 and rng.random() < 0.6:
+            # any insertion order: an outer rig may be declared (and written) before the rig it contains
+            order = list(rigs)
+            rng.shuffle(order)
+            rigs = {rid: dict(sorted(rigs[rid].items(), key=lambda kv: rng.random())) for rid in order}
         d['rigs'] = rigs or None
         if not rigs:
             rig_ids = []
